@@ -314,5 +314,38 @@ impl Property for C11 {
                 }
             }
         }
+        // the same four points rounded to f32 (every f32 is an f64, so the exact classification applies to the rounded points
+        // as they are): class of the result, the point inside both envelopes, and agreement with Line<f32>::intersects
+        let q32: [(f32, f32); 4] = [(a.0 as f32, a.1 as f32), (b.0 as f32, b.1 as f32), (cc.0 as f32, cc.1 as f32), (d.0 as f32, d.1 as f32)];
+        let ok32 = |v: f32| v == 0.0 || (v.is_finite() && v.abs() >= 2f32.powi(-40) && v.abs() <= 2f32.powi(40));
+        if q32.iter().all(|p| ok32(p.0) && ok32(p.1)) {
+            let w: Vec<P> = q32.iter().map(|p| (p.0 as f64, p.1 as f64)).collect();
+            let want32 = exact_intersection(w[0], w[1], w[2], w[3]);
+            let c32 = |p: (f32, f32)| Coord { x: p.0, y: p.1 };
+            let (m1, m2) = (Line::new(c32(q32[0]), c32(q32[1])), Line::new(c32(q32[2]), c32(q32[3])));
+            let ctx32 = || format!("f32 p=({:?},{:?}) q=({:?},{:?}) exact={:?}", q32[0], q32[1], q32[2], q32[3], want32);
+            match guard(std::panic::AssertUnwindSafe(|| (line_intersection(m1, m2), m1.intersects(&m2), m2.intersects(&m1)))) {
+                Ok((g, i12, i21)) => {
+                    obs.cmp();
+                    let zero32 = q32[0] == q32[1] || q32[2] == q32[3];
+                    let got_class = match &g {
+                        None => "None",
+                        Some(LineIntersection::SinglePoint { is_proper: true, .. }) => "Proper",
+                        Some(LineIntersection::SinglePoint { is_proper: false, .. }) => "Improper",
+                        Some(LineIntersection::Collinear { .. }) => "Collinear",
+                    };
+                    let want_class = match &want32 { Exact::None => "None", Exact::Point { proper: true, .. } => "Proper", Exact::Point { .. } => "Improper", Exact::Overlap(..) => "Collinear" };
+                    if !zero32 {
+                        obs.expect(got_class == want_class, &format!("line_intersection<f32>|class|got={got_class},want={want_class}"), || format!("got {:?}; {}", g, ctx32()));
+                    }
+                    obs.expect(i12 == (want32 != Exact::None) && i21 == i12, "Line<f32>::intersects(Line)|disagrees-with-exact", || format!("intersects={i12}/{i21}; {}", ctx32()));
+                    if let Some(LineIntersection::SinglePoint { intersection: p, .. }) = &g {
+                        let inb = |u: (f32, f32), v: (f32, f32)| p.x >= u.0.min(v.0) && p.x <= u.0.max(v.0) && p.y >= u.1.min(v.1) && p.y <= u.1.max(v.1);
+                        obs.expect(inb(q32[0], q32[1]) && inb(q32[2], q32[3]), "line_intersection<f32>|point-outside-envelope", || format!("got {:?}; {}", p, ctx32()));
+                    }
+                }
+                Err(p) => obs.fail(format!("line_intersection<f32>|panic|{}", p.site()), format!("{} {}", p, ctx32())),
+            }
+        }
     }
 }
